@@ -52,6 +52,24 @@ def run(res, replay=None):
         for c in mutate.c08_cases(xs, rng.fork("mut%d" % bi)):
             cases.append((bi, c))
 
+    # the same definitions spread over two files (types from index k on live in an included file): the verdict must
+    # not depend on the file boundary.  Every unmodified schema, every duplicate-public-type edit (original and copy
+    # on different sides) and a sample of the other edits.
+    split = {}
+    extra = []
+    srng = rng.fork("split")
+    for (bi, c) in cases:
+        nt = len(c.xs.types)
+        if nt < 2:
+            continue
+        if c.kind == "base" or c.kind == "public-type-duplicate" or srng.chance(1, 12):
+            k = nt - 1 if c.kind == "public-type-duplicate" else 1 + srng.below(nt - 1)
+            for first in (False, True):
+                c2 = mutate.Case(c.kind + ("+include-first" if first else "+include-after"), c.classes, c.xs,
+                                 c.note + " [types[%d:] in an included file, include %s the local types]" % (k, "before" if first else "after"))
+                split[id(c2)] = mutate.split_files(c.xs, k, first)
+                extra.append((bi, c2))
+    cases += extra
     xmls = [mutate.schema_xml(c.xs) for _, c in cases]
     lines = [mutate.model_line(c.xs) for _, c in cases]
     legacy_lines = [mutate.model_line(c.xs, "legacy") for _, c in cases]
@@ -61,6 +79,8 @@ def run(res, replay=None):
                                  None if replay.get("expected") == "accept" else set(replay.get("expected", [])),
                                  None, replay.get("note", "")))]
         xmls = [replay["schema_xml"]]
+        if replay.get("files"):
+            split[id(cases[0][1])] = replay["files"]
         lines = ["c08 cur " + replay["schema_tokens"]]
         legacy_lines = ["c08 legacy " + replay["schema_tokens"]]
 
@@ -69,7 +89,8 @@ def run(res, replay=None):
 
     root = tmpdir("c08-")
     try:
-        verdicts = mutate.run_many(exe, root, [({"schema.xml": x}, "schema.xml", None) for x in xmls], workers=16)
+        verdicts = mutate.run_many(exe, root, [(split.get(id(c), {"schema.xml": x}), "schema.xml", None)
+                                               for (_, c), x in zip(cases, xmls)], workers=16)
     finally:
         shutil.rmtree(root, ignore_errors=True)
 
@@ -81,6 +102,8 @@ def run(res, replay=None):
         toks = lines[i][len("c08 cur "):]
         info = describe(c, xml)
         info["schema_tokens"] = toks
+        if id(c) in split:
+            info["files"] = split[id(c)]
         info["model"] = ml
         info["sbeppc"] = v.brief()
         m = dict(x.split("=", 1) for x in ml.split())
